@@ -31,21 +31,14 @@ fn c15_h11_pyramid_intersect() {
 	kani::cover!(!la.is_empty() && lb.is_empty());
 }
 
-#[kani::proof]
-#[kani::unwind(34)]
-#[kani::stub(std::fmt::format, crate::verif_kani::stubs::fmt_format)]
-#[kani::stub(std::backtrace::Backtrace::capture, crate::verif_kani::stubs::backtrace_capture)]
-fn c15_h11_pyramid_include() {
+// include_bbox_pyramid: level-wise bounding union. The included pyramid is symbolic on ONE level (concrete per
+// instance) and empty elsewhere: iter_levels' filter position then stays concrete (32 symbolic levels: out of memory).
+fn pyramid_include<const L: usize>() {
 	let a = any_pyramid();
-	// the included pyramid is symbolic on three fixed levels and empty elsewhere (keeps iter_levels' filter decidable
-	// by constant propagation on the other 29 levels; all 32 levels symbolic ran out of memory)
 	let mut b = TileBBoxPyramid::new_empty();
-	b.level_bbox[0] = any_bbox_at(0);
-	b.level_bbox[7] = any_bbox_at(7);
-	b.level_bbox[31] = any_bbox_at(31);
+	b.level_bbox[L] = any_bbox_at(L as u8);
 	let l = any_level();
 	let p = any_coord2();
-	// include_bbox_pyramid: level-wise bounding union
 	let mut c = a.clone();
 	c.include_bbox_pyramid(&b);
 	let (la, lb, lc) = (a.get_level_bbox(l), b.get_level_bbox(l), c.get_level_bbox(l));
@@ -61,9 +54,41 @@ fn c15_h11_pyramid_include() {
 			"level union is not the bounding box of both"
 		),
 	}
-	kani::cover!(la.is_empty() && la.x_min <= la.x_max && !lb.is_empty());
-	kani::cover!(!la.is_empty() && !lb.is_empty() && lc != la && lc != lb);
+	if l as usize != L {
+		assert!(lc == la, "include_bbox_pyramid changed a level on which the other pyramid is empty");
+	}
+	kani::cover!(l as usize == L && la.is_empty() && la.x_min <= la.x_max && !lb.is_empty());
+	kani::cover!(l as usize == L && !la.is_empty() && !lb.is_empty() && lc != la && lc != lb);
 }
+
+macro_rules! pinst {
+	($name:ident, $f:ident, $l:expr) => {
+		#[kani::proof]
+		#[kani::unwind(34)]
+		#[kani::stub(std::fmt::format, crate::verif_kani::stubs::fmt_format)]
+		#[kani::stub(std::backtrace::Backtrace::capture, crate::verif_kani::stubs::backtrace_capture)]
+		#[kani::stub(u32::pow, crate::verif_kani::stubs::u32_pow)]
+		fn $name() {
+			$f::<$l>();
+		}
+	};
+}
+pinst!(c15_h11_pyramid_include_l0, pyramid_include, 0);
+pinst!(c15_h11_pyramid_include_l7, pyramid_include, 7);
+pinst!(c15_h11_pyramid_include_l31, pyramid_include, 31);
+
+// overlaps_bbox at a concrete level per instance (a symbolic level keeps the level-mismatch error path, and with it
+// anyhow's drop glue, alive)
+fn pyramid_overlaps<const L: usize>() {
+	let a = any_pyramid();
+	let bx = any_bbox_at(L as u8);
+	assert_eq!(a.overlaps_bbox(&bx), exists_common(a.get_level_bbox(L as u8), &bx), "overlaps_bbox differs from level-wise overlap");
+	kani::cover!(a.overlaps_bbox(&bx));
+	kani::cover!(!a.overlaps_bbox(&bx) && !bx.is_empty() && !a.get_level_bbox(L as u8).is_empty());
+}
+pinst!(c15_h11_pyramid_overlaps_l0, pyramid_overlaps, 0);
+pinst!(c15_h11_pyramid_overlaps_l9, pyramid_overlaps, 9);
+pinst!(c15_h11_pyramid_overlaps_l31, pyramid_overlaps, 31);
 
 #[kani::proof]
 #[kani::unwind(34)]
@@ -114,11 +139,8 @@ fn c15_h11_pyramid_contains() {
 	let c3 = TileCoord3 { x: p.x, y: p.y, z };
 	let want = z <= 31 && inb(a.get_level_bbox(z.min(31)), &p);
 	assert_eq!(a.contains_coord(&c3), want, "contains_coord differs from level-wise containment");
-	let bx = any_bbox_at(l);
-	assert_eq!(a.overlaps_bbox(&bx), exists_common(la, &bx), "overlaps_bbox differs from level-wise overlap");
 	kani::cover!(want && z == 31);
 	kani::cover!(z > 31);
-	kani::cover!(a.overlaps_bbox(&bx));
 }
 
 #[kani::proof]
@@ -242,4 +264,23 @@ fn c15_h11_pyramid_ctor() {
 	assert!(e.is_empty());
 	kani::cover!(l <= m && l == 31);
 	kani::cover!(l > m);
+}
+
+// C09: the box a filter stage hands to its source = requested box intersected with the coverage level
+#[kani::proof]
+#[kani::unwind(34)]
+#[kani::stub(std::fmt::format, crate::verif_kani::stubs::fmt_format)]
+#[kani::stub(std::backtrace::Backtrace::capture, crate::verif_kani::stubs::backtrace_capture)]
+fn c09_intersect_pyramid() {
+	let a = any_pyramid();
+	let l = any_level();
+	let q = any_bbox_at(l);
+	let p = any_coord2();
+	let mut r = q.clone();
+	let res = ok(r.intersect_pyramid(&a));
+	assert!(res.is_some(), "intersect_pyramid fails for a box of a valid level");
+	assert_eq!(inb(&r, &p), inb(&q, &p) && inb(a.get_level_bbox(l), &p), "intersect_pyramid is not box AND coverage level");
+	assert!(r.level == l && valid_bbox(&r));
+	kani::cover!(!r.is_empty() && r != q);
+	kani::cover!(r.is_empty() && !q.is_empty());
 }
